@@ -191,7 +191,9 @@ func dumpFieldNames(p *Prog, file string) error {
 			for i := 0; i < st.NumFields(); i++ {
 				ns = append(ns, st.Field(i).Name())
 			}
-			out[structKey(tm.Type())] = ns
+			if k := structKey(tm.Type()); k != "" {
+				out[k] = ns
+			}
 		}
 	}
 	b, err := json.MarshalIndent(out, "", " ")
